@@ -15,7 +15,7 @@ class Registry:
                         "numpoly.construct", "numpoly.ndpoly", "numpy.ndarray"}
         self.types = {"numpoly.ndpoly", "numpy.ndarray", "numpy.generic", "numpoly.FeatureNotSupported",
                       "numpoly.PolynomialConstructionError", "numpy.uint32", "numpy.dtype"}
-        self.constants = {"numpy.newaxis": None, "numpy.inf": float("inf"), "numpoly.ndpoly.KEY_OFFSET": 59}
+        self.constants = {"numpy.newaxis": None, "numpy.inf": float("inf"), "numpoly.ndpoly.KEY_OFFSET": "read from numpoly/baseclass.py on every run (engine.values._constant)"}
         self.modules.discard("numpoly.ndpoly")
         self.modules.discard("numpy.ndarray")
         self.used = set()          # names of axioms / contracts actually applied (for evidence)
